@@ -16,7 +16,7 @@ ID = "C01"
 MANIFEST = {
     "category": "exploration",
     "text": "Generated-input search: ASTs over all five key kinds with n-ary operator nodes are rendered in 2-3 spellings (letters in both cases, MaKo2022 symbols, Lark-WS whitespace anywhere between tokens, redundant brackets) and parsed; the resulting Lark tree must be some in-order binary bracketing of exactly the AST (brackets > juxtaposition > U > X > O, grouping inside one-operator runs free). Bracket-free mixed chains of up to 12 (thorough 30) atoms get their expected AST by precedence splitting. One slice is enumerated completely: every operator sequence over {O, X, U, juxtaposition} for bracket-free chains of 2-4 (thorough 2-6) atoms, in every combination of the three spellings per operator, with and without blanks. Apart from that slice the search is bounded by expression size (Earley is cubic) and never exhaustive.",
-    "note": "Trusted: the AST matcher and precedence splitter in vlib/ref.py, the renderer in vlib/gen.py, Hypothesis. Size bound 12 atoms (quick) / 30 atoms (thorough).",
+    "note": "Trusted: the AST matcher and precedence splitter in vlib/ref.py, the renderer in vlib/gen.py, Hypothesis. Size bound 12 atoms (quick) / 30 atoms (thorough). Process configuration by shard (vlib/sut.py; recorded in replay files): plain / parse caches preheated beyond their size / warnings attributed to ahbicht raised as errors / logging fully enabled with every record rendered.",
     "technique": "property-based testing with a by-construction oracle (AST -> render -> parse -> structural match)",
 }
 LEVEL = "exploration"
